@@ -65,8 +65,9 @@ class YowNoiseLayer(YowLayer):
         )
         self._session = session
         self._handshake_worker = None
-        if stale is not None and stale.protocol.state == WANoiseProtocol.STATE_HANDSHAKE:
-            # releases a worker that still waits for the server of the connection that was cut
+        if stale is not None:
+            # releases a worker that waits for the server of the connection that was cut, also one
+            # that was started for it but only gets to run now
             stale.queue.put(None)
 
     @property
